@@ -385,4 +385,15 @@ theorem C05_source_facts :
     Gen.Query.getCFilterOrder = ["cache", "db", "lock", "deferUnlock", "cache", "prepare", "query"] ∧
     Gen.Query.getCFilterReturnsTargetOrFails = true := by decide
 
+/-- **What the database-layer and cache theorems rely on** (regenerated on every run):
+`filterdb.FetchFilter` decodes (copies) the stored bytes inside the `walletdb.View` closure and no value
+read from the bucket outlives the closure (`dbFetch` with `inTx = true`, `C05_db_read_is_snapshot`); a
+filter enters the memory cache through `putFilterToCache` only, and the only caller of that is
+`cfiltersQuery.handleResponse`, after every test passed (`accept`; any other fill would have to be a
+`cacheFillChecked`, `C05_cache_fill_validated`). -/
+theorem C05_store_source_facts :
+    Gen.Query.fetchDecodesInTx = true ∧
+    Gen.Query.cachePutCallers = ["cfiltersQuery.handleResponse"] ∧
+    Gen.Query.cachePutSites = ["ChainService.putFilterToCache"] := by decide
+
 end Neutrino.GetCFilter
